@@ -3,5 +3,5 @@ CONSTANTS
   Mods = {"ma", "mb"}
   Families = {"raise"}
   AssumeAll = TRUE
-INVARIANTS TypeOK RunOnce NoReentry OneObject Provenance StarRespectsUnderscore Terminates Usable Emit
+INVARIANTS TypeOK OnlyAvailable RunOnce NoReentry OneObject Provenance StarRespectsUnderscore Terminates Usable Emit
 CHECK_DEADLOCK FALSE
